@@ -227,6 +227,15 @@ class ModelDB:
         other.pragmas = dict(self.pragmas)
 
 
+def _rowcount(conds):
+    """number of rows a statement changed (Cursor.rowcount): symbolic when the conditions are"""
+    n = sx.Count(conds)
+    if isz(n):
+        from .zpath import I
+        return I(sx.zI(n))
+    return int(n)
+
+
 class Cursor:
     """result of one statement.  A SELECT cursor that is not yet exhausted keeps its statement -- and with it the
     connection's WAL read snapshot -- open (sqlite3 resets a statement when its rows are exhausted, on fetchall(),
@@ -337,6 +346,8 @@ class Connection:
         self.in_txn = False
         self.open_cursors = []
         self.pinned = None  # committed state pinned by an unexhausted SELECT cursor of this connection
+        # settings SQLite keeps per connection (every new connection starts from the defaults); the others live in the file
+        self.pragmas = {'cache_size': -2000, 'mmap_size': 0, 'synchronous': 2}
 
     # -- python <-> cell
     def bind(self, v):
@@ -732,6 +743,9 @@ class Connection:
             raise ProgrammingError('Cannot operate on a closed database.')
         if db.world is not None:
             db.world.event('sql', sql, self)
+        if getattr(db, 'busy_all_hook', None) is not None and db.busy_all_hook(self, sql):
+            # a lock that blocks readers too (exclusive locking mode, recovery, journal-mode switch of another client)
+            raise OperationalError('database is locked')
         st, nparams = parse(sql)
         params = list(params)
         if len(params) != nparams:
@@ -814,6 +828,11 @@ class Connection:
             return Cursor([(v,)])
         if name == 'integrity_check':
             return Cursor([('ok',)])
+        if name in self.pragmas:
+            if val is None:
+                return Cursor([(self.pragmas[name],)])
+            self.pragmas[name] = val
+            return Cursor([])
         if val is None:
             if name not in db.pragmas:
                 raise Unsupported('PRAGMA %s' % name)
@@ -856,6 +875,7 @@ class Connection:
             if table not in state.tables:
                 raise OperationalError('no such table: %s' % table)
             base_env = self._base_env(cells, state)
+            hit = []
             for r in state.tables[table]:
                 if r.alive is False:
                     continue
@@ -864,12 +884,13 @@ class Connection:
                 c = simp(c)
                 if c is False:
                     continue
+                hit.append(c)
                 old = r.copy()
                 newvals = [(col, self.affinity(table, col, self.ev(x, env))) for col, x in sets]
                 for col, v in newvals:
                     r.c[col] = ite_cell(c, v, old.c[col])
                 self.fire('UPDATE', table, c, old, r, state)
-            return Cursor([])
+            return Cursor([], rowcount=_rowcount(hit))
         if kind == 'delete':
             _, table, where = st
             base_env = self._base_env(cells, state)
@@ -887,7 +908,7 @@ class Connection:
                     continue
                 r.alive = simp(And(r.alive, Not(c)))
                 self.fire('DELETE', table, c, r, None, state)
-            return Cursor([])
+            return Cursor([], rowcount=_rowcount([c for c in conds if c is not False]))
         raise Unsupported('statement kind %s' % kind)
 
     def do_insert(self, st, cells, state):
